@@ -5,6 +5,7 @@ import (
 	"fmt"
 	"math"
 	"math/rand"
+	"strings"
 
 	"github.com/aclements/go-moremath/scale"
 )
@@ -30,6 +31,12 @@ func mkScale(t Tok) scale.Quantitative {
 			l.Unmap(0.5)
 			l.Min, l.Max = t.Arr[1].F(), t.Arr[2].F()
 		}
+		// read-only entry points called on the object as it will be used (looking at a scale's ticks changes
+		// nothing about it)
+		if math.Float64bits(l.Max)%2 == 0 && finite(l.Min, l.Max) && l.Min != l.Max && math.Abs(l.Max-l.Min) > 1e-300 && math.Abs(l.Max-l.Min) < 1e300 {
+			l.Ticks(scale.TickOptions{Max: 5})
+			l.Ticks(scale.TickOptions{Max: 2, MinLevel: -3, MaxLevel: 40})
+		}
 		return l
 	case "log":
 		mn, mx, base := t.Arr[1].F(), t.Arr[2].F(), t.Arr[3].Int()
@@ -45,6 +52,9 @@ func mkScale(t Tok) scale.Quantitative {
 			}
 		}
 		l.SetClamp(t.Arr[4].Int() == 1)
+		if math.Float64bits(mx)%2 == 0 && finite(mn, mx) && mn != mx {
+			l.Ticks(scale.TickOptions{Max: 5})
+		}
 		return &l
 	}
 	panic("scale kind")
@@ -418,6 +428,12 @@ func genC16(w *bufio.Writer, tier string, rng *rand.Rand) {
 			dst, c, d := scTok(rng, ll)
 			if rng.Intn(8) == 0 { // the same scale at both ends
 				dst, c, d, ll = src, a, b, sl
+			} else if rng.Intn(8) == 0 { // two scales of one kind on the same domain that differ only in clamping
+				dst, c, d, ll = src, a, b, sl
+				if i := strings.LastIndex(dst, ","); i >= 0 {
+					flip := map[string]string{"0]": "1]", "1]": "0]"}[dst[i+1:]]
+					dst = dst[:i+1] + flip
+				}
 			}
 			if rng.Intn(2) == 0 {
 				fmt.Fprintf(w, "sc %s %s map %s\n", src, dst, fmtF(randX(rng, a, b, sl)))
@@ -462,6 +478,28 @@ func genC17(w *bufio.Writer, tier string, rng *rand.Rand) {
 			}
 		}
 	})
+	// FindLevel far from home: one or two steps placed anywhere within +-700 levels, wide or no limits, and
+	// guesses from next to the answer to a thousand levels away on either side
+	for k := 0; k < pick(tier, 800, 20000); k++ {
+		pos := rng.Intn(1401) - 700
+		hi := 2 + rng.Intn(8)
+		counts := []int{hi, rng.Intn(hi)}
+		if rng.Intn(3) == 0 {
+			counts = []int{hi + 3, hi, hi, hi, rng.Intn(hi)}
+		}
+		mx := rng.Intn(hi + 3)
+		lim := [2]int{0, 0}
+		switch rng.Intn(4) {
+		case 0:
+			lim = [2]int{pos - rng.Intn(300), pos + rng.Intn(300)}
+		case 1:
+			lim = [2]int{-10 - rng.Intn(300), 10 + rng.Intn(900)}
+		case 2:
+			lim = [2]int{pos + 1 + rng.Intn(40), pos + 60 + rng.Intn(200)}
+		}
+		guess := []int{0, pos, pos + rng.Intn(200) - 100, -1000, 1000, pos - 65, pos - 129, pos + 65, pos - 64, pos - 257, lim[0], lim[1]}[rng.Intn(12)]
+		fmt.Fprintf(w, "findlevel %s %d %d %d %d %d\n", fmtInts(counts), pos, mx, lim[0], lim[1], guess)
+	}
 	// linear ticks and Nice
 	n := pick(tier, 6000, 150000)
 	for k := 0; k < n; k++ {
@@ -493,6 +531,14 @@ func genC17(w *bufio.Writer, tier string, rng *rand.Rand) {
 		minL, maxL := 0, 0
 		if rng.Intn(4) == 0 {
 			minL, maxL = rng.Intn(12)-8, rng.Intn(12)-4
+		}
+		if rng.Intn(12) == 0 { // level limits far above the natural level of the domain (spacings up to 16^150)
+			minL = 60 + rng.Intn(240)
+			maxL = minL + rng.Intn(12)
+			if rng.Intn(3) == 0 {
+				minL = []int{63, 64, 65, 126, 127, 128, 129, 130, 255, 256}[rng.Intn(10)]
+				maxL = minL + rng.Intn(3)
+			}
 		}
 		op := "lticks"
 		if rng.Intn(3) == 0 {
